@@ -161,8 +161,15 @@ def alphabet(n, env, purpose):
         # generic atom with qubit j forced to |0>: every outcome with bit_j = 1 has probability exactly zero
         v = np.where(outcome_index(n, (j,)) == 0, atom(env, n, 200 + j), 0)
         return v / np.linalg.norm(v)
+    def near_basis(x0, eps_):
+        # nearly (not exactly) an eigenstate of every measured subset: sqrt(1-eps)|x0> + sqrt(eps)|generic rest>
+        rest = atom(env, n, 300 + x0).copy()
+        rest[x0] = 0
+        rest = rest / np.linalg.norm(rest)
+        return np.sqrt(1 - eps_) * basis(x0) + np.sqrt(eps_) * rest
     if purpose == 'circuit':
         ret.append(('basis:' + '0' * n, basis(0)))
+        ret.append(('near0:1e-06', near_basis(0, 1e-6)))
         ret.append(('gprod', gprod))
         if tier != 'quick':
             ret.append(('atom0', a0))
@@ -179,6 +186,7 @@ def alphabet(n, env, purpose):
         ret.append(('prod:' + ''.join(QKEYS[q % 6] for q in range(n)), kron_vec([QUBIT[QKEYS[q % 6]] for q in range(n)])))
         ret.append(('gprod', gprod))
         ret.append(('atom0', a0))
+        ret.append(('near0:1e-06', near_basis(0, 1e-6)))
         if tier != 'quick':
             ret.append(('atom1', atom(env, n, 1)))
         return ret
@@ -207,6 +215,11 @@ def alphabet(n, env, purpose):
             ret.append(('zero%d' % j, zero_block(j)))
     for j in range(n_atoms(tier)):
         ret.append(('atom%d' % j, atom(env, n, j)))
+    # nearly collapsed states: outcome probabilities 1-eps and ~eps/2^n (every scale from 'clearly mixed' to 'below sqrt(eps_machine)')
+    for eps_ in (1e-3, 1e-5, 3e-6, 1e-8, 1e-12):
+        ret.append(('near%d:%g' % (N - 1, eps_), near_basis(N - 1, eps_)))
+        if N > 2:
+            ret.append(('near1:%g' % eps_, near_basis(1, eps_)))
     # dtype deviations (one coordinate away from the default complex128)
     ret.append(('atom0:complex64', a0.astype(np.complex64)))
     if n >= 2:
